@@ -11,6 +11,7 @@ import (
 	"time"
 
 	regexp2 "github.com/dlclark/regexp2/v2"
+	"github.com/dlclark/regexp2/v2/compat"
 
 	"verif/internal/core"
 	"verif/internal/mon"
@@ -217,6 +218,51 @@ func init() {
 	add("kv split", 8, opSplit("a=1;b=2;c=3"))
 	add("kv replace 17000", 8, opReplace(sizedInput(17000, "k=v;"), "$2=$1"))
 	add("kv findall", 8, opFindAll("a=1;b=2;c=3", 2))
+	// start offsets, right-to-left drivers, the adapter, byte ranges of iterated matches
+	add("find starting mid", 0, func(re *regexp2.Regexp) string {
+		m, err := re.FindStringMatchStartingAt("aabc aaabbc xaac", 5)
+		if err != nil {
+			return resErr(err)
+		}
+		return mon.ObsAll(m)
+	})
+	add("rtl split", 3, opSplit("a12 b345 c6"))
+	add("rtl replacefunc", 3, opReplaceFunc("a12 b345 c6 é7"))
+	add("rtl find starting mid", 3, func(re *regexp2.Regexp) string {
+		m, err := re.FindStringMatchStartingAt("a12 b345 c6", 6)
+		if err != nil {
+			return resErr(err)
+		}
+		return mon.ObsAll(m)
+	})
+	add("compat submatch index", 8, func(re *regexp2.Regexp) string {
+		var out string
+		in, bad := guardCompat(func() { out = fmt.Sprint(compat.Wrap(re).FindAllStringSubmatchIndex("é=1;b=λ;c=3", -1)) })
+		if in {
+			return "error:resource"
+		}
+		if bad != "" {
+			return bad
+		}
+		return out
+	})
+	add("chain byte ranges", 8, func(re *regexp2.Regexp) string {
+		var sb strings.Builder
+		m, err := re.FindStringMatch("é=1;b=λλ;c=3")
+		for m != nil && err == nil {
+			for _, g := range m.Groups() {
+				bi, bl := g.ByteRange()
+				fmt.Fprintf(&sb, "%s:%d+%d ", g.Name, bi, bl)
+			}
+			m, err = re.FindNextMatch(m)
+		}
+		if err != nil {
+			return resErr(err)
+		}
+		return sb.String()
+	})
+	add("balanced replace", 1, opReplace("(a(b)c)(d)", "[$&|${o}]"))
+	add("backref replace 4200", 2, opReplace(sizedInput(4200, " go go"), "<$1>"))
 }
 
 // runHistory executes the op indices on fresh shared Regexps and compares each
